@@ -12,6 +12,14 @@
                (r0 = nil slice, z0 = empty NON-NIL slice; e = plain error, c = context.Canceled, both with k outputs
                 next to the error; rej<k> = the publisher refuses exactly the calls that contain output id k)
 
+    late <how> <hold> <nEarly> <kind>/<topic hex>/<mws> <script>+
+        how stop | cancel | close: Handler.Stop() / cancel of Run's context / Router.Close() happens after the first
+        nEarly messages were fed (hold = h: those are still inside their handlers then, - : they are settled); the scripted
+        subscriber hands out the remaining (>= 1) messages AFTER its context was cancelled and only then closes its
+        channel.  The receive loop has no cancel-dependent skip: every message taken from the subscriber is handled and
+        settled like any other, so the model's answer is that of `run` on the same scripts.
+        result p<x>: x = v string, i int, s struct value, b []byte, g fmt.Stringer, e errors.New, c custom error, n nil
+
   Observation: one word per message, events joined by `;`
         H                         handler entered
         a | n                     handler settled the message itself
@@ -76,8 +84,13 @@ def parseSelf : String → Option (Option Settle)
 
 def parseResult (s : String) : Option (Result Nat) :=
   match s.toList with
-  | ['p', 'v'] => some (.panics .value)
-  | ['p', 'e'] => some (.panics .error)
+  | ['p', 'v'] => some (.panics .value)   -- panic("text")
+  | ['p', 'i'] => some (.panics .value)   -- panic(42)
+  | ['p', 's'] => some (.panics .value)   -- panic(struct value)
+  | ['p', 'b'] => some (.panics .value)   -- panic([]byte)
+  | ['p', 'g'] => some (.panics .value)   -- panic(fmt.Stringer)
+  | ['p', 'e'] => some (.panics .error)   -- panic(errors.New)
+  | ['p', 'c'] => some (.panics .error)   -- panic(custom error type)
   | ['p', 'n'] => some (.panics .nil)
   | c :: ds =>
     if ds.isEmpty || !ds.all Char.isDigit then none else
@@ -264,7 +277,20 @@ def scriptsOk (d : DCfg) (scs : List Script) : Bool :=
     | .returns outs _ => outs.isEmpty
     | .panics _ => true)
 
-def handleLine (line : String) : String :=
+/-- `late` requests: validate the extra fields, then they are `run` requests -/
+def lateOk (how hold nEarly : String) (nScripts : Nat) : Bool :=
+  (how = "stop" || how = "cancel" || how = "close") && (hold = "h" || hold = "-") &&
+  (match nEarly.toNat? with
+   | some n => nEarly.toList.all Char.isDigit && n < nScripts
+   | none => false)
+
+def handleLine (line0 : String) : String :=
+  -- rewrite `late <how> <hold> <nEarly> <cfg> …` to `run <cfg> …` after validation
+  let line : String := match line0.splitOn " " with
+    | mp :: "late" :: how :: hold :: ne :: c :: rest | mp :: "lateraw" :: how :: hold :: ne :: c :: rest =>
+      let nScripts := (rest.takeWhile (· != "##")).length
+      if lateOk how hold ne nScripts then " ".intercalate (mp :: "run" :: c :: rest) else "bad"
+    | _ => line0
   match line.splitOn " " with
   | "M" :: "run" :: c :: scripts =>
     match parseCfg c, scripts.mapM parseScript with
